@@ -33,7 +33,7 @@ static fibre_t *fp(int i) { return i == F_EVT ? &evq.fibre : i == F_YIELD ? &fy 
 /* ghost */
 static bool pending[NFIB];			/* an accepted wake-up that has not yet led to a dispatch */
 static unsigned entries[NFIB];
-static uint16_t sent_seq[NIRQ]; static unsigned nsent, nrecvd;
+static uint16_t sent_seq[NIRQ + 2]; static unsigned nsent, nrecvd;	/* nsent: events receivable so far (sent, and so is everything claimed before) */
 static unsigned yields_left;
 static bool irq_on; static unsigned nhook, nirq;
 static bool accepted_in_call, evt_killed;
@@ -75,16 +75,42 @@ static int sleep_body(fibre_t *f)
 
 bool vt_cas_spurious(void) { return false; }
 
+/* events in CLAIM order (that is the order the queue delivers them in); an event becomes receivable once it and all
+ * events claimed before it have been sent - the API allows sends to be reordered among claimed messages */
+static uint16_t *held_claim; static unsigned held_idx; static bool sentflag[NIRQ + 2]; static unsigned nclaimed;
+static void note_sent(unsigned idx, bool ok)
+{
+	sentflag[idx] = true;
+	nsent = 0;
+	for (unsigned i = 0; i < NIRQ + 2; i++) { if (i < nclaimed && sentflag[i]) nsent = i + 1; else break; }
+	if (ok) { pending[F_EVT] = true; accepted_in_call = true; }
+}
 static void irq_handler(unsigned k)
 {
-	if (in.kind[k] & 1) {
+	unsigned kind = in.kind[k] & 3;
+	if (kind == 1) {			/* claim, write, send */
 		uint16_t *e = fibre_eventq_claim(&evq);
 		if (e) {
-			*e = (uint16_t)(0x100 + k);
-			bool ok = fibre_eventq_send(&evq, e);
-			sent_seq[nsent++] = (uint16_t)(0x100 + k);	/* the event is in the queue whether or not the wake-up was accepted */
-			if (ok) { pending[F_EVT] = true; accepted_in_call = true; }
+			unsigned idx = nclaimed++;
+			*e = (uint16_t)(0x100 + idx); sent_seq[idx] = (uint16_t)(0x100 + idx);
+			note_sent(idx, fibre_eventq_send(&evq, e));
 		}
+	} else if (kind == 2 && !held_claim) {	/* claim two, send only the SECOND (the first stays claimed, to be sent by a later handler) */
+		uint16_t *e1 = fibre_eventq_claim(&evq);
+		if (e1) {
+			unsigned i1 = nclaimed++;
+			*e1 = (uint16_t)(0x100 + i1); sent_seq[i1] = (uint16_t)(0x100 + i1);
+			held_claim = e1; held_idx = i1;
+			uint16_t *e2 = fibre_eventq_claim(&evq);
+			if (e2) {
+				unsigned i2 = nclaimed++;
+				*e2 = (uint16_t)(0x100 + i2); sent_seq[i2] = (uint16_t)(0x100 + i2);
+				note_sent(i2, fibre_eventq_send(&evq, e2));
+			}
+		}
+	} else if (kind == 3 && held_claim) {	/* send the outstanding earlier claim */
+		uint16_t *e = held_claim; held_claim = 0;
+		note_sent(held_idx, fibre_eventq_send(&evq, e));
 	} else {
 		int t = in.target[k] % NFIB;
 		if (fibre_run_atomic(fp(t))) { pending[t] = true; accepted_in_call = true; }
@@ -128,6 +154,9 @@ void h_irq(void)
 	fibre_eventq_init(&evq, evt_body, evbuf, sizeof(evbuf), sizeof(evbuf[0]));
 	fibre_init(&fy, yield_body); fibre_init(&fs, sleep_body);
 	__CPROVER_assume(in.nyield <= 2);
+#ifdef EVENTS_OUT_OF_ORDER	/* scenario: the first handler claims two events and sends the second, the second handler sends the first */
+	__CPROVER_assume((in.kind[0] & 3) == 2 && (in.kind[NIRQ - 1] & 3) == 3 && in.kill_at == 0 && !(in.ext_run & 1));
+#endif
 	yields_left = in.nyield;
 	fibre_run(&evq.fibre); fibre_run(&fy); fibre_run(&fs);
 	uint32_t t = 0xfffffff0u;				/* across the 32-bit wrap for good measure */
@@ -166,5 +195,9 @@ void h_irq(void)
 		if (!evt_killed) VT_ASSERT(nrecvd == nsent);		/* every event sent was received (exactly once and in order: asserted in the body) */
 	}
 	VT_WITNESS(idle && fired == NIRQ && nrecvd >= 1);
+#ifdef EVENTS_OUT_OF_ORDER
+	VT_WITNESS(idle && fired == NIRQ && nrecvd == 2);	/* both events delivered although they were sent in reverse claim order */
+#else
 	VT_WITNESS(idle && fired == NIRQ && nsent == 0 && entries[F_SLEEP] >= 2);
+#endif
 }
